@@ -267,4 +267,77 @@ def gdalKwOfWhole (resampling : String) (srcNd dstNd : Option Val) (ydim : Nat)
     (kwargs : List (String × String)) : Res WarpKw :=
   (wholeKw resampling srcNd dstNd ydim kwargs).map fun k => { k with extra := injectScale k.extra }
 
+/-! ### nodata the dtype cannot hold: the entry check (fix3-C13), the int8 detour, float rounding -/
+
+/-- `np.copyto(dst, _dst, casting="unsafe")` from the working integer type back to the raster's type:
+two's complement wrap-around into `[lo, hi]` -/
+def wrapInt (r : IRange) (v : Int) : Int := (v - r.lo) % (r.hi - r.lo + 1) + r.lo
+
+/-- the low-level in-memory path on an integer raster of range `r` that GDAL warps in the working type of
+range `wr` (`dtype_remap`: int8 → int16; every other integer type: `wr = r`): rasterio validates the nodata
+against the WORKING type, GDAL initialises, the result is copied back with `casting="unsafe"` -/
+def wholeFillWork (r wr : IRange) (dstNd srcNd : Option RawNd) : GRes Int :=
+  (wholeFillInt wr dstNd srcNd).map (wrapInt r)
+
+/-- `_xr_reproject_da` on raw values: `src_nodata = kw.pop("src_nodata") or attribute`, `dst_nodata` defaults to it -/
+def xrNodataRaw (attrNd kwSrcNd dstNd : Option RawNd) : Option RawNd × Option RawNd :=
+  let s := match kwSrcNd with
+    | some v => some v
+    | none => attrNd
+  let d := match dstNd with
+    | some v => some v
+    | none => s
+  (s, d)
+
+/-- `_check_nodata_range(src_nodata)`, then `(dst_nodata)` of `_xr_reproject_da` (fix3-C13), integer dtype:
+`info.min <= nodata <= info.max` against the raster's OWN type, before the dask / numpy dispatch -/
+def xrEntryCheck (checked : Bool) (r : IRange) (s d : Option RawNd) : GRes Unit :=
+  match checked with
+  | false => .ok ()
+  | true =>
+    match rioCheckInt r s with
+    | .error e => .error e
+    | .ok _ => rioCheckInt r d
+
+/-- what an unreached pixel of `xr_reproject(dask-backed)` holds in a chunk without sources -/
+def xrFillDask (checked : Bool) (r : IRange) (attrNd kwSrcNd dstNd : Option RawNd) : GRes Int :=
+  let nd := xrNodataRaw attrNd kwSrcNd dstNd
+  match xrEntryCheck checked r nd.1 nd.2 with
+  | .error e => .error e
+  | .ok _ => resolveFillInt true r nd.2 nd.1
+
+/-- what an unreached pixel of `xr_reproject(numpy-backed)` holds -/
+def xrFillWhole (checked : Bool) (r wr : IRange) (attrNd kwSrcNd dstNd : Option RawNd) : GRes Int :=
+  let nd := xrNodataRaw attrNd kwSrcNd dstNd
+  match xrEntryCheck checked r nd.1 nd.2 with
+  | .error e => .error e
+  | .ok _ => wholeFillWork r wr nd.2 nd.1
+
+/-- `2^k` for an integer exponent -/
+def pow2 (k : Int) : Rat := if 0 ≤ k then ((2 ^ k.toNat : Nat) : Rat) else 1 / ((2 ^ (-k).toNat : Nat) : Rat)
+
+/-- round to the nearest integer, ties to even -/
+def roundHalfEven (m : Rat) : Int :=
+  let f := m.floor
+  let frac := m - (f : Rat)
+  if frac < 1 / 2 then f else if 1 / 2 < frac then f + 1 else if f % 2 = 0 then f else f + 1
+
+/-- IEEE round-to-nearest-even of a positive rational to `p` significant bits (normal range; what both
+`np.float32(x)` / `np.float16(x)` of `resolve_fill_value` and GDAL's double → float conversion of the nodata do):
+`e` with `2^e ≤ q < 2^(e+1)` from the bit lengths of numerator and denominator -/
+def roundPos (p : Nat) (q : Rat) : Rat :=
+  let e0 : Int := (Nat.log2 q.num.natAbs : Int) - (Nat.log2 q.den : Int)
+  let e : Int := if pow2 e0 ≤ q then (if pow2 (e0 + 1) ≤ q then e0 + 1 else e0) else e0 - 1
+  let ulp := pow2 (e - (p : Int) + 1)
+  (roundHalfEven (q / ulp) : Rat) * ulp
+
+/-- conversion of a finite nodata to a binary floating point type with `p` significant bits -/
+def roundFloat (p : Nat) (q : Rat) : Rat :=
+  if q = 0 then 0 else if 0 < q then roundPos p q else -(roundPos p (-q))
+
+/-- `resolve_fill_value` / the warp on a floating-point (or complex: real part) raster: NaN stays NaN -/
+def fillFloat (p : Nat) : RawNd → RawNd
+  | .nan => .nan
+  | .num q => .num (roundFloat p q)
+
 end OdcGeo.C13
